@@ -192,6 +192,56 @@ fn inc() {
 		Judge: spawnJudge("i", "i"),
 	},
 	{
+		// a global written by two cores in turn: each core reads what the other one stored last,
+		// also right after a store of its own
+		Name: "global-handed-back-and-forth",
+		Source: `let shared = 0;
+fn w() {
+    shared = shared + 10;
+    println("w stored");
+}
+fn main() {
+    shared = 1;
+    spawn w();
+    let i = 0;
+    while i < 6 { i += 1; }
+    println("main reads");
+    shared = shared + 100;
+    println(shared);
+}
+`,
+		Judge: func(o execObs) (string, string) {
+			if len(o.Events) < 1 || o.Events[0] != "wait:ok" {
+				return "WAIT:unexpected outcome", fmt.Sprintf("events=%q", o.Events)
+			}
+			lines := strings.Split(strings.TrimSuffix(o.Out, "\n"), "\n")
+			pos := map[string]int{}
+			val := ""
+			for k, l := range lines {
+				pos[l] = k + 1
+				if l != "w stored" && l != "main reads" {
+					val = l
+				}
+			}
+			if len(lines) != 3 || pos["w stored"] == 0 || pos["main reads"] == 0 {
+				return "OUTPUT:spawned functions did not each run exactly once", fmt.Sprintf("%q", o.Out)
+			}
+			// the worker's store is complete when its line is out: a read that starts later sees it
+			if pos["w stored"] < pos["main reads"] && val != "111" {
+				return "STALE-GLOBAL:a core read a global without the store another core had completed before", fmt.Sprintf("%q", o.Out)
+			}
+			// otherwise the three accesses of main (load, store, load for the print) and the two of the
+			// worker interleave: 111, 101 (the worker's update lost) or 11 (main's update lost)
+			if val != "111" && val != "101" && val != "11" {
+				return "OUTPUT:impossible value of the shared global", fmt.Sprintf("%q", o.Out)
+			}
+			if len(o.Blocked) > 0 {
+				return "LEFT-BLOCKED:" + blockedOps(o.Blocked), fmt.Sprintf("blocked=%v", o.Blocked)
+			}
+			return "", ""
+		},
+	},
+	{
 		Name: "long-worker-crosses-quantum",
 		Source: `fn main() {
     spawn w();
